@@ -5,7 +5,7 @@ from props.common import *
 
 ID = 'C01'
 PROPS_MODULE = 'Props.C01'
-THEOREMS = ['C01_level_row', 'C01_level_row_per', 'C01_level_col', 'C01_level_2d', 'C01_level_2d_per', 'C01_per_short_refuted', 'C01_hyps_satisfiable']
+THEOREMS = ['C01_level_row', 'C01_level_row_per', 'C01_level_col', 'C01_level_2d', 'C01_level_2d_per', 'C01_multilevel_1d', 'C01_multilevel_1d_per', 'C01_multilevel_2d', 'C01_multilevel_2d_per', 'C01_per_short_refuted', 'C01_hyps_satisfiable']
 VO = ['theories/Props/C01.vo', 'theories/Run/RunDwt.vo', 'theories/Run/RunSpec.vo']
 RULE = ('correspondence A: every (L, mode, N) of the grid with the FULL operator matrix of afb1d (all basis inputs), plus '
         'AFB1D/AFB2D/DWT1DForward/DWTForward on seeded integer tensors, compared exactly with the Coq model; correspondence B: '
@@ -14,7 +14,7 @@ RULE = ('correspondence A: every (L, mode, N) of the grid with the FULL operator
         'non-trivial = generic integer filters (distinct magnitudes, mixed signs) so every output is a distinct integer combination.')
 TRUSTED = TRUSTED_COMMON + ['PyWavelets as the reference, represented by Spec/Line.v (pywt_dwt, pywt_dwt_per), tied by correspondence B',
                             'pywt.dwt_coeff_len modelled as floor((N+L-1)/2) / ceil(N/2) (checked against pywt on every run)']
-ASSUMES = ['theorems are about the model of afb1d (row pass); column pass, band split and the level loop are covered by the exact correspondence and the oracle',
+ASSUMES = ['theorems cover the whole model: row and column pass, band split and the level loop for every J (C01_multilevel_*: wavedec/wavedec2, finest first), all five modes (periodization under the guard);',
            'float rounding of the implementation is outside the theorem (see C16)']
 
 
